@@ -794,4 +794,21 @@ theorem stamp_prefix_eq_full {h : Hist} {o : LoadOpts} {m : LMap} (hl : load h o
     filterForLineage_of_shares m _ ident true [x] hs1, filterForLineage_of_shares m _ x true [x] hs2, hg1, hg2]
 
 
+open C16 in
+/-- **`upgrade <branch>@head` is `upgrade <the head of that branch>`**: when exactly one head shares the
+branch's `down_revision` lineage, the upgrade plan for the spelling `<label or id>@head` is the plan for that
+head written as its full id (C01.plan then says what it contains), from every version table. -/
+theorem upgrade_branch_head_eq (m : LMap) (hsub : ∀ x ∈ m.heads, x ∈ m.ids) (hleg : ∀ i ∈ m.ids, negInt? i = none)
+    (rows : List Id) (L : String) (br x : Id) (hb : BranchName m L br)
+    (hx : m.heads.filter (fun t => sharesLineage m t [br] false) = [x]) (hpx : Plain x)
+    (hm1 : matchRelative (L ++ "@head") = none) (hm2 : matchRelative x = none) :
+    upgradeRevs m rows (L ++ "@head") = upgradeRevs m rows x := by
+  have hxm : x ∈ m.heads.filter (fun t => sharesLineage m t [br] false) := by rw [hx]; exact List.mem_cons_self
+  have hxi : x ∈ m.ids := hsub x (List.mem_filter.mp hxm).1
+  apply upgradeRevs_congr
+  unfold parseUpgradeTarget
+  simp only [hm1, hm2, getRevisions_branch_head m hsub hleg L br x hb hx, (full_id m x hxi hpx).1]
+
+example : matchRelative "lib@head" = none := by decide +kernel
+
 end C05
